@@ -11,7 +11,7 @@ BUILTINS = {
     "set", "dict", "sorted", "sum", "zip", "range", "enumerate", "iter", "next", "hasattr", "getattr",
     "super", "print", "any", "all", "reversed", "type", "id",
 }
-SPEC_FORMS = {"forall", "exists", "forall_int", "exists_int", "sum_", "old", "implies", "iff", "let", "fresh"}
+SPEC_FORMS = {"is_int", "forall", "exists", "forall_int", "exists_int", "sum_", "old", "implies", "iff", "let", "fresh"}
 
 
 # --------------------------------------------------------------------------- logic
@@ -382,7 +382,7 @@ def pyval_equal(eng, a, b):
 def chars_equal(eng, a, b):
     la, aa = a.t
     lb, ab = b.t
-    i = z3.Int(fresh_name("ci"))
+    i = bvar("ci")
     return z3.And(zr(la) == zr(lb), z3.ForAll([i], z3.Implies(z3.And(0 <= i, i < zr(la)), z3.Select(aa, i) == z3.Select(ab, i))))
 
 
